@@ -361,3 +361,35 @@ Example C01_nested_nonvacuous :
   | None => False
   end.
 Proof. vm_compute. repeat split. Qed.
+
+(* ---- two-dimensional pad -> filter -> strip (C01/Pad2D.v; tied to utils.pad_edges2d and
+   Baseline2D.noise_median by the shape correspondence of harness/c01_pad.py on every run) ---- *)
+From PB Require C01.Pad2D C01.Pad2DProofs.
+
+(* the baseline of the padded 2-D smoother has the data's shape for EVERY data shape, EVERY pair of half
+   windows >= 1 (equal or not) and every padding mode / extrapolate window the padding accepts *)
+Theorem C01_noise_median2d_shape : forall (M N hr hc : Z) (extrapolate : bool) (ew : option (list Z)) (R C : Z),
+  (0 <= M)%Z -> (0 <= N)%Z -> (0 < hr)%Z -> (0 < hc)%Z ->
+  Pad2D.noise_median2d_shape M N hr hc extrapolate ew = Pad2D.PadOk R C -> R = M /\ C = N.
+Proof. exact Pad2DProofs.noise_median2d_shape_is_data. Qed.
+Print Assumptions C01_noise_median2d_shape.
+
+Theorem C01_noise_median2d_returns : forall (M N hr hc : Z) (extrapolate : bool),
+  (0 <= M)%Z -> (0 <= N)%Z -> (0 < hr)%Z -> (0 < hc)%Z ->
+  Pad2D.noise_median2d_shape M N hr hc extrapolate None = Pad2D.PadOk M N.
+Proof. exact Pad2DProofs.noise_median2d_returns. Qed.
+Print Assumptions C01_noise_median2d_returns.
+
+(* pad_edges2d with a (rows, columns) pair: (M + 2 rows, N + 2 columns) in every mode *)
+Theorem C01_pad2d_pair_shape : forall (M N pr pc : Z) (extrapolate : bool), (0 < pr)%Z -> (0 < pc)%Z ->
+  Pad2D.pad_edges2d_shape M N [pr; pc] extrapolate None = Pad2D.PadOk (M + 2 * pr) (N + 2 * pc).
+Proof. exact Pad2DProofs.pad2d_pair_shape. Qed.
+Print Assumptions C01_pad2d_pair_shape.
+
+(* with the row / column padding mixed up in the extrapolation the result has shape
+   (M, N + 2 (hr - hc)): wrong exactly for unequal pairs *)
+Theorem C01_noise_median2d_mixed_refuted : forall (M N hr hc : Z),
+  (0 <= M)%Z -> (0 <= N)%Z -> (0 < hr)%Z -> (0 < hc)%Z -> (0 <= N + 2 * (hr - hc))%Z ->
+  Pad2D.noise_median2d_shape_with Pad2D.pad_edges2d_shape_mixed M N hr hc true None = Pad2D.PadOk M (N + 2 * (hr - hc)).
+Proof. exact Pad2DProofs.noise_median2d_mixed_refuted. Qed.
+Print Assumptions C01_noise_median2d_mixed_refuted.
